@@ -109,6 +109,10 @@ type Env struct {
 	// (supplied again through KeyCompareForCollection on every open).
 	Cmps          map[string]model.Cmp
 	lastFlushStep int
+	lastSeq       []TreeItem
+	depthCache    map[string]int
+	depthEpoch    int64
+	depthName     string
 	churnStore    *gkvlite.Store
 	churnN        int
 	ScanIters     int64
